@@ -10,7 +10,7 @@
    lower bound is needed), [min_supp] a rational (count, or fraction when < 1). *)
 From Coq Require Import QArith Permutation.
 From FCA Require Import Base.ListSet Model.BinTable Model.FormalContext Spec.Galois Spec.Closure.
-From FCA Require Import Model.Sofia Model.C15Interval Model.TreeExtents Spec.C15 Lemmas.C15Bits Lemmas.C15Sofia Lemmas.C15Formal Lemmas.C15Exact Lemmas.C15Tree Lemmas.C15Interval Lemmas.C15Forest.
+From FCA Require Import Model.Sofia Model.C15Interval Model.TreeExtents Spec.C15 Lemmas.C15Bits Lemmas.C15Sofia Lemmas.C15Formal Lemmas.C15Exact Lemmas.C15Tree Lemmas.C15Interval Lemmas.C15MVExact Lemmas.C15Forest.
 Local Open Scope nat_scope.
 
 (* ------------------------------------------------------------------ Sofia, formal contexts *)
@@ -129,14 +129,23 @@ Theorem C15_sofia_mv_is_lattice : forall shuffle mu,
 Proof. exact sofia_mv_is_lattice. Qed.
 Print Assumptions C15_sofia_mv_is_lattice.
 
-(* "all concepts when the limit is not binding" on interval columns: only the statement.  It
-   needs "every pattern extent is an intersection of the binary attribute extents" (interordinal
-   scaling, the subject of property C14) and is not proved here; the correspondence checks it on
-   every many-valued case (exact_ok against mv_extents_spec). *)
-Definition C15_sofia_mv_exact_statement : Prop :=
-  forall shuffle mu, (forall l, Permutation l (shuffle l)) ->
+(* "all concepts when the limit is not binding" on interval columns: the binary attribute
+   extents generate every pattern extent by intersection (interordinal scaling, proved here
+   directly for IntervalPS.to_bin_attr_extents), so all pattern extents are returned *)
+Theorem C15_sofia_mv_exact : forall shuffle mu,
+  (forall l, Permutation l (shuffle l)) ->
   forall K L, mv_wf K -> length (mv_extents_spec K) <= L ->
   forall A, In A (map fst (sofia_mv shuffle mu K L 0%Q)) <-> In A (mv_extents_spec K).
+Proof. exact sofia_mv_exact. Qed.
+Print Assumptions C15_sofia_mv_exact.
+
+Theorem C15_bin_attrs_generate : forall K A g,
+  mv_wf K -> A <> [] -> in_range (mv_nobj K) A -> g < mv_nobj K ->
+  (forall a, In a (mv_bin_attr_extents K) ->
+             (forall x, In x A -> nth x a false = true) -> nth g a false = true) ->
+  mv_covers K (mv_int_spec K A) g = true.
+Proof. exact bin_attrs_generate. Qed.
+Print Assumptions C15_bin_attrs_generate.
 
 (* the model of IntervalPS / MVContext derivation is the containment filter / min-max description *)
 Theorem C15_mv_intention_spec : forall K A, mv_intention K A = mv_int_spec K A.
